@@ -134,9 +134,9 @@ struct Plan {
     aliased: bool,
 }
 
-fn gen_plan(rng: &mut Rng, max_txs: usize) -> Plan {
+fn gen_plan(rng: &mut Rng, max_txs: usize, allow_alias: bool) -> Plan {
     let shards = 2 + rng.below(2);
-    let aliased = rng.chance(1, 6);
+    let aliased = allow_alias && rng.chance(1, 6);
     let plain_keys = ["k0", "k1", "k2", "k3"];
     let mut init = Vec::new();
     for _s in 0..shards {
@@ -198,7 +198,14 @@ fn plan_json(p: &Plan) -> Value {
         "pre_image": p.init,
         "txs": p.txs.iter().enumerate().map(|(i, t)| json!({
             "tx": format!("t{}", i),
-            "ops": t.ops.iter().map(|(s, v)| (format!("s{}", s), v.iter().map(op_name).collect::<Vec<_>>())).collect::<BTreeMap<_, _>>(),
+            "ops": t.ops.iter().map(|(s, v)| (format!("s{}", s), if v.len() <= 8 {
+                v.iter().map(op_name).collect::<Vec<_>>()
+            } else {
+                // large transaction: the filler writes are only counted
+                let mut d: Vec<String> = v.iter().filter(|op| !op_name(op).starts_with("Put(f")).map(op_name).collect();
+                d.push(format!("+{} filler writes to own keys", v.len() - d.len()));
+                d
+            })).collect::<BTreeMap<_, _>>(),
         })).collect::<Vec<_>>(),
     })
 }
@@ -319,6 +326,9 @@ fn final_oracle(plan: &Plan, parts: &[TxParticipant], obs: &[TxObs], found: &mut
     for (i, o) in obs.iter().enumerate() {
         if o.decision() == Some(Dec::Commit) {
             for (s, votes) in &o.accepted {
+                if !plan.txs[i].participants.contains(s) {
+                    continue; // an answer of a shard that is not a participant is not a participant's vote
+                }
                 if votes.iter().all(|y| *y) && !votes.is_empty() && !o.applied.contains(s) {
                     found.push(Found {
                         sig: "committed-tx-not-applied-on-yes-voter".into(),
@@ -357,6 +367,35 @@ fn final_oracle(plan: &Plan, parts: &[TxParticipant], obs: &[TxObs], found: &mut
                 }
             }
         }
+        // (c'/d') a key written on this shard by committed transactions holds what one of them left
+        // there (their order is not judged): nobody else may have erased or replaced it
+        let mut left_by_committed: BTreeMap<String, BTreeSet<Option<String>>> = BTreeMap::new();
+        for (i, t) in plan.txs.iter().enumerate() {
+            if obs[i].decision() == Some(Dec::Commit) && obs[i].applied.contains(&s) {
+                let mut last: BTreeMap<String, Option<String>> = BTreeMap::new();
+                for op in t.ops.get(&s).map(|v| v.as_slice()).unwrap_or(&[]) {
+                    if let Some((k, v)) = effect(op) {
+                        last.insert(k, v);
+                    }
+                }
+                for (k, v) in last {
+                    left_by_committed.entry(k).or_default().insert(v);
+                }
+            }
+        }
+        for (k, allowed) in &left_by_committed {
+            let have = real.get(k).cloned();
+            if !allowed.contains(&have) {
+                found.push(Found {
+                    sig: "committed-write-lost".into(),
+                    detail: format!(
+                        "final state of shard {}: key {:?} was written by committed transactions that were applied there (they left {:?}), but it holds {:?} (pre-image {:?})",
+                        s, k, allowed, have, plan.init[s].get(k)
+                    ),
+                });
+                break;
+            }
+        }
         for k in touched_other.difference(&touched_committed) {
             if real.get(k) != plan.init[s].get(k) {
                 found.push(Found {
@@ -374,7 +413,9 @@ fn final_oracle(plan: &Plan, parts: &[TxParticipant], obs: &[TxObs], found: &mut
 
 #[derive(Clone)]
 enum Msg {
-    Prepare { tx: usize, shard: usize },
+    /// `shard` = whose operations the request carries, `to` = the participant it reaches (a
+    /// mis-routed or mis-addressed duplicate reaches a shard outside the participant list)
+    Prepare { tx: usize, shard: usize, to: usize },
     Vote { tx: usize, shard: usize, vote: PrepareVote },
     Commit { tx: usize, shard: usize },
     Abort { tx: usize, shard: usize },
@@ -382,7 +423,8 @@ enum Msg {
 
 fn msg_name(m: &Msg) -> String {
     match m {
-        Msg::Prepare { tx, shard } => format!("prepare(t{},s{})", tx, shard),
+        Msg::Prepare { tx, shard, to } if shard == to => format!("prepare(t{},s{})", tx, shard),
+        Msg::Prepare { tx, shard, to } => format!("misrouted-prepare(t{},ops-of-s{},reaches-s{})", tx, shard, to),
         Msg::Vote { tx, shard, vote } => format!("vote(t{},s{},{})", tx, shard, if matches!(vote, PrepareVote::Yes { .. }) { "yes" } else { "no" }),
         Msg::Commit { tx, shard } => format!("commit(t{},s{})", tx, shard),
         Msg::Abort { tx, shard } => format!("abort(t{},s{})", tx, shard),
@@ -425,7 +467,7 @@ impl<'a> Sim<'a> {
                 self.trace.push(format!("begin(t{})", i));
                 self.bump("ev:begin");
                 for &s in &self.plan.txs[i].participants {
-                    self.net.push(Msg::Prepare { tx: i, shard: s });
+                    self.net.push(Msg::Prepare { tx: i, shard: s, to: s });
                 }
             }
             Err(_) => {}
@@ -485,12 +527,16 @@ impl<'a> Sim<'a> {
     fn process(&mut self, m: Msg) {
         self.trace.push(msg_name(&m));
         match m {
-            Msg::Prepare { tx, shard } => {
+            Msg::Prepare { tx, shard, to } => {
                 let Some(id) = self.obs[tx].id else { return };
-                let vote = self.parts[shard].prepare(prepare_request(id, &self.plan.txs[tx].ops[&shard]));
+                let vote = self.parts[to].prepare(prepare_request(id, &self.plan.txs[tx].ops[&shard]));
                 self.bump(if matches!(vote, PrepareVote::Yes { .. }) { "ev:prepare-yes" } else { "ev:prepare-conflict" });
-                check_shard(shard, self.parts[shard].store(), &self.reference[shard], &self.obs, "prepare", &mut self.found);
-                self.net.push(Msg::Vote { tx, shard, vote });
+                if to != shard {
+                    self.bump("ev:prepare-at-non-participant");
+                }
+                check_shard(to, self.parts[to].store(), &self.reference[to], &self.obs, "prepare", &mut self.found);
+                // the answer carries the id of the shard that produced it
+                self.net.push(Msg::Vote { tx, shard: to, vote });
             }
             Msg::Vote { tx, shard, vote } => {
                 let Some(id) = self.obs[tx].id else { return };
@@ -498,6 +544,9 @@ impl<'a> Sim<'a> {
                 match self.coord.record_vote(id, shard, vote) {
                     Ok(r) => {
                         self.bump("ev:vote-accepted");
+                        if !self.plan.txs[tx].participants.contains(&shard) {
+                            self.bump("ev:vote-of-non-participant-accepted");
+                        }
                         self.obs[tx].accepted.entry(shard).or_default().push(yes);
                         match r {
                             Some(TxPhase::Prepared) => self.obs[tx].ready = true,
@@ -568,7 +617,7 @@ impl<'a> Sim<'a> {
 
 fn sim_case(case_seed: u64, rep: &mut Report) {
     let mut rng = Rng::new(case_seed);
-    let plan = gen_plan(&mut rng, 3);
+    let plan = gen_plan(&mut rng, 3, true);
     let (coord, parts) = build_world(&plan);
     let mut sim = Sim {
         plan: &plan,
@@ -588,6 +637,7 @@ fn sim_case(case_seed: u64, rep: &mut Report) {
     let w_sweep = [0u32, 1, 1, 3][rng.below(4)];
     let w_abort = [0u32, 1, 2][rng.below(3)];
     let w_hostile_commit = [0u32, 1, 2][rng.below(3)];
+    let w_misroute = [0u32, 0, 2, 5][rng.below(4)];
     let max_events = 40 + rng.below(160);
     let n = plan.txs.len();
     sim.begin(0);
@@ -603,6 +653,7 @@ fn sim_case(case_seed: u64, rep: &mut Report) {
             w_sweep,
             2,
             3,
+            w_misroute,
         ];
         if w.iter().sum::<u32>() == 0 {
             break;
@@ -634,6 +685,18 @@ fn sim_case(case_seed: u64, rep: &mut Report) {
             4 => sim.coord_abort(rng.below(n)),
             5 => sim.sweep(),
             6 => sim.take_aborts(),
+            8 => {
+                // a PREPARE (or a duplicate of it) reaches a shard that is not a participant of the
+                // transaction; that shard prepares and answers like any other
+                let i = rng.below(n);
+                let outside: Vec<usize> = (0..plan.shards).filter(|s| !plan.txs[i].participants.contains(s)).collect();
+                if sim.obs[i].id.is_some() && !outside.is_empty() {
+                    let shard = *rng.pick(&plan.txs[i].participants);
+                    sim.net.push(Msg::Prepare { tx: i, shard, to: *rng.pick(&outside) });
+                    sim.bump("ev:misrouted-prepare");
+                    sim.faults += 1;
+                }
+            }
             _ => {
                 // retransmission by the driver: prepares of an undecided, decisions of a decided transaction
                 let i = rng.below(n);
@@ -643,7 +706,7 @@ fn sim_case(case_seed: u64, rep: &mut Report) {
                     match sim.obs[i].decision() {
                         None => {
                             for &s in &plan.txs[i].participants {
-                                sim.net.push(Msg::Prepare { tx: i, shard: s });
+                                sim.net.push(Msg::Prepare { tx: i, shard: s, to: s });
                             }
                         }
                         Some(d) => sim.send_decision(i, d),
@@ -725,6 +788,7 @@ struct Shared {
     obs: Mutex<Vec<TxObs>>,
     found: Mutex<Vec<Found>>,
     ops: std::sync::atomic::AtomicU64,
+    dup_prepares: std::sync::atomic::AtomicU64,
 }
 
 impl Shared {
@@ -786,18 +850,45 @@ impl Shared {
 
 fn threaded_case(case_seed: u64, rep: &mut Report) {
     let mut rng = Rng::new(case_seed);
-    let mut plan = gen_plan(&mut rng, 4);
-    plan.aliased = false;
+    let mut plan = gen_plan(&mut rng, 4, false);
+    // half of the cases use large transactions: many writes to keys of their own around the few
+    // contended ones, so that applying a commit on a shard takes long enough for other messages
+    // to arrive at that shard meanwhile
+    let big = rng.bool();
+    if big {
+        for (i, t) in plan.txs.iter_mut().enumerate() {
+            for (s, ops) in t.ops.iter_mut() {
+                let fill = 100 + rng.below(1400);
+                let mut v: Vec<Transaction> = (0..fill)
+                    .map(|j| Transaction::Put { key: format!("f{}_{}", i, j), data: format!("t{}:s{}:f{}", i, s, j).into_bytes() })
+                    .collect();
+                for op in ops.drain(..) {
+                    let at = rng.below(v.len() + 1);
+                    v.insert(at, op);
+                }
+                *ops = v;
+            }
+        }
+    }
     let (coord, parts) = build_world(&plan);
     let n = plan.txs.len();
-    let sh = Arc::new(Shared { plan, coord, parts, obs: Mutex::new(vec![TxObs::default(); n]), found: Mutex::new(Vec::new()), ops: Default::default() });
+    let finished = std::sync::atomic::AtomicUsize::new(0);
+    struct Done<'a>(&'a std::sync::atomic::AtomicUsize);
+    impl Drop for Done<'_> {
+        fn drop(&mut self) {
+            self.0.fetch_add(1, std::sync::atomic::Ordering::SeqCst);
+        }
+    }
+    let sh = Arc::new(Shared { plan, coord, parts, obs: Mutex::new(vec![TxObs::default(); n]), found: Mutex::new(Vec::new()), ops: Default::default(), dup_prepares: Default::default() });
     let chaos_threads = 1 + rng.below(2);
-    let seeds: Vec<u64> = (0..n + chaos_threads).map(|_| rng.next_u64()).collect();
+    let seeds: Vec<u64> = (0..n + chaos_threads + 1).map(|_| rng.next_u64()).collect();
+    let finished = &finished;
     std::thread::scope(|sc| {
         for i in 0..n {
             let sh = sh.clone();
             let seed = seeds[i];
             sc.spawn(move || {
+                let _done = Done(finished);
                 let mut rng = Rng::new(seed);
                 let parts_of = sh.plan.txs[i].participants.clone();
                 let Ok(t) = sh.coord.begin(&"coord".to_string(), &parts_of) else { return };
@@ -833,7 +924,7 @@ fn threaded_case(case_seed: u64, rep: &mut Report) {
                 for _ in 0..(6 + rng.below(20)) {
                     let i = rng.below(n);
                     sh.ops.fetch_add(1, std::sync::atomic::Ordering::Relaxed);
-                    match rng.below(7) {
+                    match rng.below(8) {
                         0 => {
                             if let Some(id) = sh.id(i) {
                                 if sh.coord.abort(id, "chaos").is_ok() {
@@ -879,9 +970,52 @@ fn threaded_case(case_seed: u64, rep: &mut Report) {
                                 sh.obs.lock()[i].cast.insert(s, v);
                             }
                         }
+                        6 => {
+                            // a PREPARE reaches a shard that is not a participant; it prepares and answers
+                            let outside: Vec<usize> = (0..sh.plan.shards).filter(|s| !sh.plan.txs[i].participants.contains(s)).collect();
+                            if let (Some(id), false) = (sh.id(i), outside.is_empty()) {
+                                let to = *rng.pick(&outside);
+                                let of = *rng.pick(&sh.plan.txs[i].participants);
+                                let v = sh.parts[to].prepare(prepare_request(id, &sh.plan.txs[i].ops[&of]));
+                                let _ = sh.vote(i, to, v);
+                            }
+                        }
                         _ => std::thread::yield_now(),
                     }
                 }
+            });
+        }
+        {
+            // the network keeps re-delivering PREPAREs (duplicates arriving at any later moment)
+            // and, for transactions already decided abort, the abort behind them
+            let sh = sh.clone();
+            let seed = seeds[n + chaos_threads];
+            sc.spawn(move || {
+                let mut rng = Rng::new(seed);
+                let mut rounds = 0u64;
+                while finished.load(std::sync::atomic::Ordering::SeqCst) < n && rounds < 20_000 {
+                    rounds += 1;
+                    let i = rng.below(n);
+                    let Some(id) = sh.id(i) else {
+                        std::thread::yield_now();
+                        continue;
+                    };
+                    let s = *rng.pick(&sh.plan.txs[i].participants);
+                    let v = sh.parts[s].prepare(prepare_request(id, &sh.plan.txs[i].ops[&s]));
+                    sh.obs.lock()[i].cast.insert(s, v.clone());
+                    if rng.chance(1, 4) {
+                        let _ = sh.vote(i, s, v);
+                    }
+                    let aborted = sh.obs.lock()[i].decision() == Some(Dec::Abort);
+                    if aborted && rng.bool() {
+                        let _ = sh.parts[s].abort(id);
+                    }
+                    if rng.chance(1, 3) {
+                        std::thread::yield_now();
+                    }
+                }
+                sh.ops.fetch_add(rounds, std::sync::atomic::Ordering::Relaxed);
+                sh.dup_prepares.fetch_add(rounds, std::sync::atomic::Ordering::Relaxed);
             });
         }
     });
@@ -914,6 +1048,10 @@ fn threaded_case(case_seed: u64, rep: &mut Report) {
     rep.count("threaded:decided:commit", committed);
     rep.count("threaded:decided:abort", aborted);
     rep.count("threaded:calls", sh.ops.load(std::sync::atomic::Ordering::Relaxed));
+    rep.count("threaded:duplicate-prepares-redelivered", sh.dup_prepares.load(std::sync::atomic::Ordering::Relaxed));
+    if big {
+        rep.count("threaded:cases-with-large-transactions", 1);
+    }
     rep.eval(case_seed, committed + aborted > 0);
     let mut seen = BTreeSet::new();
     for f in found {
